@@ -369,6 +369,27 @@ def misc(rep, tier):
                     msg = "-O raw file unreadable: %r" % (exc,)
             if msg:
                 rep.violation("cli -O raw rec=%s input=%s" % (rec, kind), msg, {"kind": "climisc", "what": "-Oraw", "rec": rec, "input": kind})
+            # -O on a run without a single detection (threshold out of reach): the stream is saved all the same
+            quiet = dict(opts, e=150)
+            for name in ("out.wav", "out.raw"):
+                for extra in ([], ["-j", "0.1"]):
+                    rep.add("evaluations")
+                    res = run_cli(argv_from(quiet) + ["-O", "<WD>" + name] + extra, rec, kind, wd)
+                    msg = check_run(res, rec, quiet)
+                    if not msg and not extra:
+                        try:
+                            if name.endswith(".raw"):
+                                got = open(os.path.join(wd, name), "rb").read()
+                            else:
+                                with wave.open(os.path.join(wd, name), "rb") as fp:
+                                    got = fp.readframes(-1)
+                            if got != data:
+                                msg = "-O %s after a run without detections holds %d bytes, the input has %d" % (name, len(got), len(data))
+                        except Exception as exc:
+                            msg = "-O %s after a run without detections: %r" % (name, exc)
+                    if msg:
+                        rep.violation("cli -O %s no detections rec=%s input=%s %s" % (name, rec, kind, extra), msg,
+                                      {"kind": "climisc", "what": "-O-quiet", "rec": rec, "input": kind})
             # -o: one file per detection
             for tpl in ("ev_{id}.wav", "ev_{id}_{start:.3f}_{end:.3f}.wav", "d{duration:.2f}_{id}.wav"):
                 rep.add("evaluations")
@@ -467,14 +488,16 @@ def misc(rep, tier):
         rep.violation("cli many detections, dead observer", msg[:400], {"kind": "climisc", "what": "many-bad-o"})
     # --printf: typed escapes (\\n \\t \\r) together with ordinary and non-ASCII text
     for pf in ("{id}\\t{start} -> {end}", "{id} \u00c9v\u00e9nement {start}", "{id}\\t\u00c9v\u00e9nement \u2192 {start}\\n--", "[{id}] 100% {start}",
-               "{id} back\\\\slash {start}", "@{id} {start} {end}", "@", "+{id}", "{id} @{start} -{end}"):
+               "{id} back\\\\slash {start}", "@{id} {start} {end}", "@", "+{id}", "{id} @{start} -{end}",
+               "{id:>3}|{start:>9}|{end:<14}|{duration:^10}|", "{start:*>12} {end!s:8}"):
         rep.add("evaluations")
         opts = dict(n=0.02, m=0.3, s=0.02, a=0.01, e=50)
-        res = run_cli(argv_from(opts) + ["--printf", pf], "mono16", "wav", wd)
-        want_pf = pf.replace("\\n", "\n").replace("\\t", "\t").replace("\\r", "\r")
-        msg = check_run(res, "mono16", opts, want_pf)
-        if msg:
-            rep.violation("cli printf %r" % pf, msg[:300], {"kind": "climisc", "what": "printf"})
+        for tf in ("%S", "%h:%m:%s.%i") if ":" in pf.split("{", 1)[-1] else ("%S",):
+            res = run_cli(argv_from(opts) + ["--printf", pf] + (["--time-format", tf] if tf != "%S" else []), "mono16", "wav", wd)
+            want_pf = pf.replace("\\n", "\n").replace("\\t", "\t").replace("\\r", "\r")
+            msg = check_run(res, "mono16", opts, want_pf, time_format=tf)
+            if msg:
+                rep.violation("cli printf %r tf=%s" % (pf, tf), msg[:300], {"kind": "climisc", "what": "printf"})
     shutil.rmtree(wd, ignore_errors=True)
 
 
